@@ -7,29 +7,23 @@
  *   g_c02_base / g_c02_len   the input line (address only compared, never dereferenced; length after which nothing may be read)
  *   g_c02_dN                 sticky: the N-th duplication happened (N = 1..3; flags, not a counter: HOWTO extra rule 2)
  *   g_c02_oN / g_c02_lN      its source offset / length
- *   g_c02_dupc               sticky: bstr_dup_c("") happened (request header without colon: empty name)
- *   g_c02_fail               prophecy: which duplications answer NULL (bit N-1 = N-th call, bit 3 = bstr_dup_c)
- *   g_c02_free_n             sticky: bstr_free was called on the first duplicate (error path of the header parsers)
- *   g_c02_r1 / g_c02_r2      the fresh objects the first / second duplication answered (identity only)
- *   g_c02_colon              header units: prophecy-free witness of the colon position reported through the loop invariants
- * Response header merge unit (htp_process_response_header_generic):
- *   g_c02m_*                 see contracts/c02_extract.h, section 3
+ *   g_c02_fail               prophecy: which duplications answer NULL (bit N-1 = N-th call)
+ *   g_c02_r1 / g_c02_r2 / g_c02_r3   what the N-th duplication answered (identity only, never dereferenced)
+ *   g_c02_f1 / g_c02_f2      sticky: bstr_free was called on the first / second duplicate
+ *   g_c02_len0               htp_chomp unit: the length on entry (loop invariants cannot say __CPROVER_old)
  */
 #ifndef GHOST_C02_H
 #define GHOST_C02_H
 #define GHOSTS_C02(X) \
     X(const void *, g_c02_base) X(size_t, g_c02_len) \
-    X(int, g_c02_d1) X(int, g_c02_d2) X(int, g_c02_d3) X(int, g_c02_dupc) \
+    X(int, g_c02_d1) X(int, g_c02_d2) X(int, g_c02_d3) \
     X(size_t, g_c02_o1) X(size_t, g_c02_l1) X(size_t, g_c02_o2) X(size_t, g_c02_l2) X(size_t, g_c02_o3) X(size_t, g_c02_l3) \
-    X(unsigned, g_c02_fail) X(int, g_c02_free_n) X(const void *, g_c02_r1) X(const void *, g_c02_r2) X(const void *, g_c02_rc) \
-    X(size_t, g_c02_len0) \
-    X(void *, g_c02m_ex) X(int, g_c02m_have_ex) X(int, g_c02m_isclen) X(size_t, g_c02m_newlen) X(void *, g_c02m_name) X(void *, g_c02m_value) X(void *, g_c02m_h) \
-    X(int, g_c02m_parse_rc) X(int, g_c02m_free_name) X(int, g_c02m_free_value) X(int, g_c02m_add_n) X(int, g_c02m_add_rc) X(const void *, g_c02m_add_el) X(const void *, g_c02m_add_key) \
-    X(int, g_c02m_exp_n) X(size_t, g_c02m_exp_req) X(int, g_c02m_addmem_n) X(int, g_c02m_addb_n) X(unsigned char, g_c02m_sep0) X(unsigned char, g_c02m_sep1) X(const void *, g_c02m_addb_src) \
-    X(int, g_c02m_cl_n)
+    X(unsigned, g_c02_fail) X(int, g_c02_f1) X(int, g_c02_f2) X(const void *, g_c02_r1) X(const void *, g_c02_r2) X(const void *, g_c02_r3) \
+    X(size_t, g_c02_len0)
 
 /* character classes used by invariants: one table read per use (HOWTO 4).  C02_ISCRLF: line terminator bytes */
-#define C02_ISCRLF(c) ((c) == 13 || (c) == 10)
+static const unsigned char c02_crlf[256] = { [10] = 1, [13] = 1 };
+#define C02_ISCRLF(c) (c02_crlf[(unsigned char)(c)])
 /* RFC 7230 tchar (token character) as a table */
 static const unsigned char c02_tchar[256] = {
   0,0,0,0,0,0,0,0,0,0,0,0,0,0,0,0, 0,0,0,0,0,0,0,0,0,0,0,0,0,0,0,0,
